@@ -122,9 +122,9 @@ def plant_if_scopes(g):
     if g.depth:
         return None
     outs = []
-    n = g.pick([2, 2, 3])
+    n = g.pick([2, 2, 3, 3, 4])
     for i in range(n):
-        r = g.g_if(how=g.pick(["const", "const", "folded", "dynamic"]), branch=["binary", "binary", "const"], reuse=True)
+        r = g.g_if(how=g.pick(["const", "const", "const", "folded", "dynamic"]), branch=["binary", "binary", "const"], reuse=True)
         if r:
             outs.extend(r)
     if len(outs) >= 2:
@@ -172,4 +172,28 @@ def plant_overridable_shape_operand(g):
         f = g.emit("Flatten", [r[0]], axis=g.pick([0, 1])) if r[0].rank >= 1 else None
         if f:
             outs += f
+    return outs
+
+
+def plant_loop_scopes(g):
+    """Two Loops at one level whose bodies use the SAME local names (formal inputs, initializers, node outputs), followed by a reader of the
+    FIRST loop's result placed after the second loop: a translation that turns body names into variables of one enclosing scope (or an
+    optimizer that hoists body nodes) must keep the two scopes apart."""
+    if g.depth or "g_loop" in g.cfg.get("disable", ()):
+        return None
+    r1 = g.g_loop()
+    if not r1:
+        return None
+    r2 = g.g_loop(reuse=True)
+    if not r2:
+        return None
+    g.features.add("planted:loop_scopes")
+    outs = [r1[0], r2[0]]
+    a, b = r1[0], r2[0]
+    if a.dtype == b.dtype and a.shape == b.shape and a.dtype.kind in "fi":
+        r = g.emit(g.pick(["Sub", "Add"]), [a, b])
+    else:
+        r = g.emit("Identity", [a])
+    if r:
+        outs += r
     return outs
